@@ -24,8 +24,9 @@ def table_stage(name: str, module: str, tier: str, replay: str, *, timeout: int 
             out["model_violations"] = r.violated
             out["tlc_tail"] = r.out[-3000:]
             return out
-        p = run_py([replay, str(table), str(d / "replay.json")], timeout=timeout,
-                   env={"OMP_NUM_THREADS": "1", "OPENBLAS_NUM_THREADS": "1"})
+        renv = {"OMP_NUM_THREADS": "1", "OPENBLAS_NUM_THREADS": "1", "VERIF_TIER_FULL": "1" if tier == "thorough" else "0"}
+        renv.update(extra_env or {})
+        p = run_py([replay, str(table), str(d / "replay.json")], timeout=timeout, env=renv)
         if p.returncode != 0:
             raise MachineryError(f"{replay} failed:\n" + p.stdout[-2000:] + p.stderr[-4000:])
         out["replay"] = json.loads((d / "replay.json").read_text())
